@@ -127,7 +127,8 @@ class SampleBamReader(BamReader):
             for bam_read in self._samfile.fetch(
                 reference, multiple_iterators=True, start=start, stop=end
             ):
-                if bam_read.get_tag("RG") in read_groups:
+                # An alignment without RG tag belongs to no read group and thus to no sample
+                if bam_read.has_tag("RG") and bam_read.get_tag("RG") in read_groups:
                     yield AlignmentWithSourceID(self.source_id, bam_read)
 
     def close(self) -> None:
